@@ -200,3 +200,60 @@ theorem step_fires (d : Program → Frame → St → Expr → Disp) (s : State) 
             · simp [hs] at h
 
 end EvalUpTo
+
+-- ---------------------------------------------------------------- marking a node used (local)
+
+namespace EvalUpTo
+open Machine TestRunner
+
+/-- Node kinds for which marking changes nothing below the node (no block flags are recomputed:
+`setUsedExpr` only recurses with `true` into operands) and whose value is pushed by the node's own
+completing step. Excluded: `if` / `match` (flags of the branches change), loops (the value is pushed
+one step before completion; `break` reads the loop's flag), calls (the flag travels into the callee
+frame), `return` / `break` / `continue` / parentheses (no value of their own is pushed). -/
+def Simple : Expr → Bool
+  | .int .. | .str .. | .var .. | .lambda .. | .binop .. | .letE .. | .assign .. | .update .. | .list .. | .tuple .. => true
+  | _ => false
+
+@[simp] theorem withUsed_id (u : Bool) (e : Expr) : (withUsed u e).id = e.id := by cases e <;> rfl
+@[simp] theorem withUsed_used (u : Bool) (e : Expr) : (withUsed u e).used = u := by cases e <;> rfl
+@[simp] theorem withUsed_withUsed (a b : Bool) (e : Expr) : withUsed a (withUsed b e) = withUsed a e := by cases e <;> rfl
+
+/-- Forget the use flag of node `id` in a pending entry. -/
+def unflag (id : Nat) (x : Expr) : Expr := if x.id == id then withUsed false x else x
+
+def unflagF (id : Nat) (f : Frame) : Frame := { f with exprs := f.exprs.map fun sx => (sx.1, unflag id sx.2) }
+
+def unflagD (id : Nat) : Disp → Disp
+  | .ok f => .ok (unflagF id f)
+  | .okOut f o => .okOut (unflagF id f) o
+  | .newFrame f c => .newFrame (unflagF id f) c
+  | .err f st vals e => .err (unflagF id f) st vals e
+  | .panic s => .panic s
+  | .unsupported w => .unsupported w
+
+theorem unflag_marked (e : Expr) (u : Bool) : unflag e.id (withUsed u e) = unflag e.id e := by
+  simp [unflag]
+
+theorem unflagF_pushE (id : Nat) (f : Frame) (st : St) (x : Expr) :
+    unflagF id (f.pushE st x) = (unflagF id f).pushE st (unflag id x) := by
+  simp [unflagF, Frame.pushE]
+
+theorem unflagF_foldl (id : Nat) (items : List Expr) (g : Frame) :
+    unflagF id (items.foldl (fun f x => f.pushE .N x) g) =
+      (items.map (unflag id)).foldl (fun f x => f.pushE .N x) (unflagF id g) := by
+  induction items generalizing g with
+  | nil => rfl
+  | cons x xs ih => simp only [List.foldl, List.map]; rw [ih, unflagF_pushE]
+
+/-- What the completing step of the marked node does, compared with the unmarked node. -/
+def ExtraPush (d d' : Disp) : Prop :=
+  match d with
+  | .ok f1 => ∃ v, d' = .ok (f1.pushV v)
+  | .err f1 st vals er => d' = .err f1 st vals er
+  | .panic s => d' = .panic s
+  | .unsupported w => d' = .unsupported w
+  | .okOut _ _ => True
+  | .newFrame _ _ => True
+
+end EvalUpTo
